@@ -50,6 +50,11 @@ def gen_cases(tier, seed):
                       "ktol": float(10.0 ** float(rng.choice([-6, -8, -10, -10, -12]))),
                       "init": bool(rng.random() < 0.25), "eval_style": str(rng.choice(["grid", "rational", "irrational", "ends", "dense"])),
                       "disc": bool(i % 8 == 0)})
+        # where the interaction comes from: the register (default), a user matrix with exact zeros, an all-zero matrix, a cutoff that removes every pair
+        im = str(rng.choice(["register"] * 7 + ["custom-sparse", "zero", "cutoff-all"]))
+        cases[-1]["imat"] = im
+        if im in ("zero", "cutoff-all") and n >= 2:
+            cases[-1].update(local=True, slm=False)  # non-interacting atoms with different drives: the product structure invites shortcuts
     return cases
 
 
@@ -97,13 +102,22 @@ def run_case(case):
         v /= np.linalg.norm(v)
         psi0 = v
         kw["initial_state"] = StateVector(torch.tensor(v, dtype=torch.complex128), gpu=False)
+    im = case.get("imat", "register")
+    if im == "custom-sparse" and n >= 2:
+        m = rng.uniform(0.2, 8.0, size=(n, n)) * (rng.random(size=(n, n)) < 0.6)
+        m = np.triu(m, 1)
+        kw["interaction_matrix"] = (m + m.T).tolist()
+    elif im == "zero" and n >= 2:
+        kw["interaction_matrix"] = np.zeros((n, n)).tolist()
+    elif im == "cutoff-all":
+        kw["interaction_cutoff"] = 1e9
     cfg = SVConfig(dt=dt, krylov_tolerance=case["ktol"], observables=obs, with_modulation=case["modulation"], log_level=e2e.quiet(),
                    gpu=False, **kw)
     cnt = {k: 0 for k in REQUIRED}
     cnt["rejected"] = 0
     viol = []
     worst = {}
-    fp = seqgen.describe(spec) + f":dt{dt:g}:{case['eval_style']}:init{int(case['init'])}"
+    fp = seqgen.describe(spec) + f":dt{dt:g}:{case['eval_style']}:init{int(case['init'])}" + ("" if im == "register" else ":" + im)
     sample = {"spec": spec, "dt": dt, "krylov_tolerance": case["ktol"], "evaluation_times": times, "initial_state": case["init"]}
     try:
         with e2e.recording(SVBackend) as rec, e2e.krylov_recording() as kcalls:
